@@ -2286,6 +2286,26 @@ func (c S3ApiController) PutActions(ctx *fiber.Ctx) error {
 	if ctx.Request().URI().QueryArgs().Has("acl") {
 		var input *s3.PutObjectAclInput
 
+		err := auth.VerifyAccess(ctx.Context(), c.be, auth.AccessOptions{
+			Readonly:      c.readonly,
+			Acl:           parsedAcl,
+			AclPermission: auth.PermissionWriteAcp,
+			IsRoot:        isRoot,
+			Acc:           acct,
+			Bucket:        bucket,
+			Object:        keyStart,
+			Action:        auth.PutObjectAclAction,
+		})
+		if err != nil {
+			return SendResponse(ctx, err,
+				&MetaOpts{
+					Logger:      c.logger,
+					MetricsMng:  c.mm,
+					Action:      metrics.ActionPutObjectAcl,
+					BucketOwner: parsedAcl.Owner,
+				})
+		}
+
 		if len(ctx.Body()) > 0 {
 			if grants+acl != "" {
 				if c.debug {
@@ -2396,7 +2416,7 @@ func (c S3ApiController) PutActions(ctx *fiber.Ctx) error {
 			}
 		}
 
-		err := c.be.PutObjectAcl(ctx.Context(), input)
+		err = c.be.PutObjectAcl(ctx.Context(), input)
 		return SendResponse(ctx, err,
 			&MetaOpts{
 				Logger:      c.logger,
